@@ -254,7 +254,9 @@ class Concat(Expr):
                     else frame
                 )
                 for frame, cols in zip(self._frames, columns_frame)
-                if len(cols) > 0
+                # an input without any of the selected columns still
+                # contributes its rows when the inputs are stacked
+                if len(cols) > 0 or self.axis == 0
             ]
             # subclasses (StackPartition) declare other parameters: keep them by
             # position instead of spelling out the ones of Concat
